@@ -47,7 +47,16 @@ def run(ctx):
         ctx.oblige(TR, True)
     except Exception as ex:
         ctx.oblige(TR, False, repr(ex))
-    common.lean_obligations(ctx, ["Props.C20", "Props.ThreadsBridge", "Sympler.Threads", "Sympler.DynDriver", "symdrv"], ["Props.C20", "Props.ThreadsBridge"], theorem_names() + BR, MODULES)
+    TRS = "translator t_forceslots (OpenMP-only code: every block of every X::setForceSlots and every write into a per-thread copy vector of all force modules; slot set-up and mergeCopies aliases of the symbol calculators)"
+    try:
+        import t_forceslots
+        common.write_if_changed(os.path.join(common.LEAN, "Sympler/Gen/ForceSlotsGen.lean"), t_forceslots.generate(common.REPO))
+        ctx.oblige(TRS, True)
+    except Exception as ex:
+        ctx.oblige(TRS, False, repr(ex))
+    FS = ["Sympler.ForceSlots." + t for t in ["C20_set_sites_consistent", "C20_write_sites_consistent", "C20_layouts_agree", "C20_calc_sites_consistent", "C20_slot_tables_cover"]]
+    common.lean_obligations(ctx, ["Props.C20", "Props.ThreadsBridge", "Props.ForceSlots", "Sympler.Threads", "Sympler.DynDriver", "symdrv"], ["Props.C20", "Props.ThreadsBridge", "Props.ForceSlots"],
+                            theorem_names() + BR + FS, MODULES + ["Sympler.Gen.ForceSlotsGen", "Props.ForceSlots"])
     n, threads, repeat = (12, "1,2,4,8,16", 1) if not ctx.thorough else (200, "1,2,3,4,8,16", 3)
     workers = 6
     per = (n + workers - 1) // workers
@@ -69,7 +78,7 @@ def run(ctx):
     shutil.rmtree(base, ignore_errors=True)
     errs = [p["error"] for p in parts if "error" in p]
     parts = [p for p in parts if "error" not in p]
-    tot = {k: sum(p.get(k, 0) for p in parts) for k in ("cases", "omp_runs", "states_compared", "exact_states", "assignment_links", "partition_states")}
+    tot = {k: sum(p.get(k, 0) for p in parts) for k in ("cases", "omp_runs", "states_compared", "exact_states", "assignment_links", "partition_states", "lj_cases", "lj_omp_runs", "slot_stress")}
     dis = [d for p in parts for d in p.get("disagreements", [])]
     viol = [v for p in parts for v in p.get("violations", [])]
     hist = {}
@@ -81,11 +90,11 @@ def run(ctx):
     ctx.oblige("correspondence omp ran (%d scenarios, %d OpenMP runs, thread counts %s)" % (tot["cases"], tot["omp_runs"], threads), tot["omp_runs"] > 0 and not errs, str(errs)[:300])
     ctx.oblige("correspondence threads: link -> thread assignment of the real OpenMP binary = Lean model `threads` (%d links); union of the per-thread pair lists = serial pair list (%d states)"
                % (tot["assignment_links"], tot["partition_states"]), not dis, str([dict(kind=d["kind"], T=d["T"], detail=d["detail"]) for d in dis[:2]])[:500])
-    ctx.oblige("oracle: every particle's r, v, forces and tag attributes bit-identical between the serial and the OpenMP flavour for every thread count (%d states inside the exact horizon); copy vectors zero after every step"
-               % tot["exact_states"], not viol, str([dict(oracle=v["oracle"], T=v.get("T"), detail=v["detail"]) for v in viol[:2]])[:500])
+    ctx.oblige("oracle: every particle's r, v, forces and tag attributes bit-identical between the serial and the OpenMP flavour for every thread count (%d states inside the exact horizon); copy vectors zero after every step; %d LJ scenarios (species in both orders, unequal records; %d OpenMP runs) agree with the serial run to 1e-9"
+               % (tot["exact_states"], tot["lj_cases"], tot["lj_omp_runs"]), not viol, str([dict(oracle=v["oracle"], T=v.get("T"), detail=v["detail"]) for v in viol[:2]])[:500])
     ctx.coverage.update(dict(evaluations=tot["omp_runs"], distinct_nontrivial=tot["omp_runs"], traces_validated_against_impl=tot["omp_runs"],
                              rule="scenarios of the sim/corr_dyn.py generator (1-3 species, several pair forces / pair sums incl. allPairs / caches / Euler integrators per species, frozen particles, dyadic data) run "
-                                  "by the serial flavour and by the OpenMP flavour with nThreads in {%s}, %d time(s) each; one evaluation = one OpenMP run compared state by state; distinct (scenario, T, repetition)" % (threads, repeat),
+                                  "by the serial flavour and by the OpenMP flavour with nThreads in {%s}, %d time(s) each; every second scenario rewritten into the less common copy-slot layout (another integrator before the velocity-Verlet one, cross-species forces in reverse colour order); plus LJ scenarios outside the exact model; one evaluation = one OpenMP run compared state by state; distinct (scenario, T, repetition)" % (threads, repeat),
                              histogram=dict(hist, totals=tot), samples=[dict(threads=threads, totals=tot, first_violation=(dict(oracle=viol[0]["oracle"], detail=viol[0]["detail"]) if viol else None))]))
     ctx.assumptions += ["PARTIAL: that the real threads touch only their own copies and lists (no data race on shared scratch) is a run-time fact the model assumes; evidence for it is only the repeated bit-identical runs",
                         "exact-arithmetic regime: sums are order independent, so 'up to summation order' sharpens to bit-identical",
